@@ -87,7 +87,7 @@ func specDefaultKnown(t parser.ValueType) bool {
 //@   ensures[C01] panic-prefix: result == nil ==> arg(Panic, 0, 0) == "panic: " + res(evaluateExpression, 0, 0).firstValue()
 //
 //@ func (*transpiler).evaluatePrint
-//@   loop 1 invariant[C04] one-evaluation-per-operand: calls(evaluateExpression) == rangeindex + 1 && calls(Print) == 0 && forall(k, 0, rangeindex + 1, arg(evaluateExpression, k, 1) == print.Expressions()[k] && arg(evaluateExpression, k, 2))
+//@   loop @"range print.Expressions()" invariant[C04] one-evaluation-per-operand: calls(evaluateExpression) == rangeindex + 1 && calls(Print) == 0 && forall(k, 0, rangeindex + 1, arg(evaluateExpression, k, 1) == print.Expressions()[k] && arg(evaluateExpression, k, 2))
 //@   ensures[C04] each-operand-once-in-order: result == nil ==> calls(evaluateExpression) == len(print.Expressions()) && forall(k, 0, len(print.Expressions()), arg(evaluateExpression, k, 1) == print.Expressions()[k]) && calls(Print) == 1
 //@   ensures[C04] print-after-all-operands: result == nil && len(print.Expressions()) > 0 ==> seq(evaluateExpression, len(print.Expressions()) - 1) < seq(Print, 0)
 //
@@ -139,46 +139,46 @@ func specDefaultKnown(t parser.ValueType) bool {
 //@   ensures[C03,C13] error-iff-unknown: (err != nil) == !specDefaultKnown(valueType)
 //
 //@ func (*transpiler).evaluateReturn
-//@   loop 1 invariant[C02,C04] one-evaluation-per-value: calls(evaluateExpression) == rangeindex + 1 && calls(Return) == 0 && len(returnValues) == rangeindex + 1 && forall(k, 0, rangeindex + 1, arg(evaluateExpression, k, 1) == returnStatement.Values()[k] && arg(evaluateExpression, k, 2) && returnValues[k].value == res(evaluateExpression, k, 0).firstValue())
+//@   loop @"range returnStatement.Values()" invariant[C02,C04] one-evaluation-per-value: calls(evaluateExpression) == rangeindex + 1 && calls(Return) == 0 && len(returnValues) == rangeindex + 1 && forall(k, 0, rangeindex + 1, arg(evaluateExpression, k, 1) == returnStatement.Values()[k] && arg(evaluateExpression, k, 2) && returnValues[k].value == res(evaluateExpression, k, 0).firstValue())
 //@   ensures[C02,C04] values-once-in-order-then-return: result == nil ==> calls(evaluateExpression) == len(returnStatement.Values()) && forall(k, 0, len(returnStatement.Values()), arg(evaluateExpression, k, 1) == returnStatement.Values()[k]) && calls(Return) == 1
 //@   ensures[C02] registers-in-order: result == nil ==> len(arg(Return, 0, 0)) == len(returnStatement.Values()) && forall(k, 0, len(returnStatement.Values()), arg(Return, 0, 0)[k].value == res(evaluateExpression, k, 0).firstValue())
 //
 //@ func (*transpiler).evaluateFunctionCall
-//@   loop 1 invariant[C02,C04] one-evaluation-per-argument: calls(evaluateExpression) == rangeindex + 1 && calls(FuncCall) == 0 && len(args) == rangeindex + 1 && forall(k, 0, rangeindex + 1, arg(evaluateExpression, k, 1) == functionCall.Args()[k] && arg(evaluateExpression, k, 2) && args[k] == res(evaluateExpression, k, 0).firstValue())
+//@   loop @"range functionCall.Args()" invariant[C02,C04] one-evaluation-per-argument: calls(evaluateExpression) == rangeindex + 1 && calls(FuncCall) == 0 && len(args) == rangeindex + 1 && forall(k, 0, rangeindex + 1, arg(evaluateExpression, k, 1) == functionCall.Args()[k] && arg(evaluateExpression, k, 2) && args[k] == res(evaluateExpression, k, 0).firstValue())
 //@   ensures[C02,C04] arguments-once-in-order-then-call: err == nil ==> calls(evaluateExpression) == len(functionCall.Args()) && forall(k, 0, len(functionCall.Args()), arg(evaluateExpression, k, 1) == functionCall.Args()[k]) && calls(FuncCall) == 1
 //@   ensures[C02] arguments-in-position: err == nil ==> arg(FuncCall, 0, 0) == functionCall.Name() && len(arg(FuncCall, 0, 1)) == len(functionCall.Args()) && forall(k, 0, len(functionCall.Args()), arg(FuncCall, 0, 1)[k] == res(evaluateExpression, k, 0).firstValue()) && arg(FuncCall, 0, 3) == valueUsed
 //@   ensures[C02] all-results-or-error: err == nil && valueUsed ==> len(result0.values) == len(functionCall.ReturnTypes())
 //
 //@ func (*transpiler).evaluateSliceInstantiation
-//@   loop 1 invariant[C03,C04] one-evaluation-per-element: calls(evaluateExpression) == rangeindex + 1 && calls(SliceInstantiation) == 0 && len(values) == rangeindex + 1 && forall(k, 0, rangeindex + 1, arg(evaluateExpression, k, 1) == instantiation.Values()[k] && arg(evaluateExpression, k, 2) && values[k] == res(evaluateExpression, k, 0).firstValue())
+//@   loop @"range instantiation.Values()" invariant[C03,C04] one-evaluation-per-element: calls(evaluateExpression) == rangeindex + 1 && calls(SliceInstantiation) == 0 && len(values) == rangeindex + 1 && forall(k, 0, rangeindex + 1, arg(evaluateExpression, k, 1) == instantiation.Values()[k] && arg(evaluateExpression, k, 2) && values[k] == res(evaluateExpression, k, 0).firstValue())
 //@   ensures[C03,C04] elements-once-in-order: err == nil ==> calls(evaluateExpression) == len(instantiation.Values()) && forall(k, 0, len(instantiation.Values()), arg(evaluateExpression, k, 1) == instantiation.Values()[k]) && calls(SliceInstantiation) == 1
 //@   ensures[C03] element-k-is-value-k: err == nil ==> len(arg(SliceInstantiation, 0, 0)) == len(instantiation.Values()) && forall(k, 0, len(instantiation.Values()), arg(SliceInstantiation, 0, 0)[k] == res(evaluateExpression, k, 0).firstValue())
 //
 //@ func (*transpiler).evaluateVarDefinition
 //@   requires[C13] one-value-per-variable: len(definition.Values()) == len(definition.Variables())
-//@   loop 1 invariant[C01,C04] pairwise-so-far: calls(evaluateExpression) == rangeindex + 1 && calls(VarDefinition) == rangeindex + 1 && forall(k, 0, rangeindex + 1, arg(evaluateExpression, k, 1) == definition.Values()[k] && arg(evaluateExpression, k, 2) && arg(VarDefinition, k, 0) == definition.Variables()[k].Name() && arg(VarDefinition, k, 1) == res(evaluateExpression, k, 0).firstValue() && arg(VarDefinition, k, 2) == definition.Variables()[k].Global())
+//@   loop @"range definition.Variables()" invariant[C01,C04] pairwise-so-far: calls(evaluateExpression) == rangeindex + 1 && calls(VarDefinition) == rangeindex + 1 && forall(k, 0, rangeindex + 1, arg(evaluateExpression, k, 1) == definition.Values()[k] && arg(evaluateExpression, k, 2) && arg(VarDefinition, k, 0) == definition.Variables()[k].Name() && arg(VarDefinition, k, 1) == res(evaluateExpression, k, 0).firstValue() && arg(VarDefinition, k, 2) == definition.Variables()[k].Global())
 //@   ensures[C01,C04] value-k-once-into-variable-k: result == nil ==> calls(evaluateExpression) == len(definition.Variables()) && calls(VarDefinition) == len(definition.Variables()) && forall(k, 0, len(definition.Variables()), arg(evaluateExpression, k, 1) == definition.Values()[k] && arg(evaluateExpression, k, 2) && arg(VarDefinition, k, 0) == definition.Variables()[k].Name() && arg(VarDefinition, k, 1) == res(evaluateExpression, k, 0).firstValue() && arg(VarDefinition, k, 2) == definition.Variables()[k].Global())
 //
 //@ func (*transpiler).evaluateVarAssignment
 //@   requires[C13] one-value-per-variable: len(assignment.Values()) == len(assignment.Variables())
-//@   loop 1 invariant[C01,C04] pairwise-so-far: calls(evaluateExpression) == rangeindex + 1 && calls(VarDefinition) == rangeindex + 1 && forall(k, 0, rangeindex + 1, arg(evaluateExpression, k, 1) == assignment.Values()[k] && arg(evaluateExpression, k, 2) && arg(VarDefinition, k, 0) == assignment.Variables()[k].Name() && arg(VarDefinition, k, 1) == res(evaluateExpression, k, 0).firstValue() && arg(VarDefinition, k, 2) == assignment.Variables()[k].Global())
+//@   loop @"range assignment.Variables()" invariant[C01,C04] pairwise-so-far: calls(evaluateExpression) == rangeindex + 1 && calls(VarDefinition) == rangeindex + 1 && forall(k, 0, rangeindex + 1, arg(evaluateExpression, k, 1) == assignment.Values()[k] && arg(evaluateExpression, k, 2) && arg(VarDefinition, k, 0) == assignment.Variables()[k].Name() && arg(VarDefinition, k, 1) == res(evaluateExpression, k, 0).firstValue() && arg(VarDefinition, k, 2) == assignment.Variables()[k].Global())
 //@   ensures[C01,C02,C04] value-k-once-into-variable-k: result == nil ==> calls(evaluateExpression) == len(assignment.Variables()) && calls(VarDefinition) == len(assignment.Variables()) && forall(k, 0, len(assignment.Variables()), arg(evaluateExpression, k, 1) == assignment.Values()[k] && arg(evaluateExpression, k, 2) && arg(VarDefinition, k, 0) == assignment.Variables()[k].Name() && arg(VarDefinition, k, 1) == res(evaluateExpression, k, 0).firstValue() && arg(VarDefinition, k, 2) == assignment.Variables()[k].Global())
 //
 //@ func (*transpiler).evaluateVarDefinitionCallAssignment
-//@   loop 1 invariant[C02] position-k-to-variable-k: calls(VarDefinition) == rangeindex + 1 && calls(evaluateExpression) == 1 && forall(k, 0, rangeindex + 1, arg(VarDefinition, k, 0) == definition.Variables()[k].Name() && arg(VarDefinition, k, 1) == res(evaluateExpression, 0, 0).values[k] && arg(VarDefinition, k, 2) == definition.Variables()[k].Global())
+//@   loop @"range variables" invariant[C02] position-k-to-variable-k: calls(VarDefinition) == rangeindex + 1 && calls(evaluateExpression) == 1 && forall(k, 0, rangeindex + 1, arg(VarDefinition, k, 0) == definition.Variables()[k].Name() && arg(VarDefinition, k, 1) == res(evaluateExpression, 0, 0).values[k] && arg(VarDefinition, k, 2) == definition.Variables()[k].Global())
 //@   ensures[C02,C04] call-once-then-position-k-to-variable-k: result == nil ==> calls(evaluateExpression) == 1 && arg(evaluateExpression, 0, 1) == asExprCall(definition.Call()) && arg(evaluateExpression, 0, 2) && len(res(evaluateExpression, 0, 0).values) == len(definition.Variables()) && calls(VarDefinition) == len(definition.Variables()) && forall(k, 0, len(definition.Variables()), arg(VarDefinition, k, 0) == definition.Variables()[k].Name() && arg(VarDefinition, k, 1) == res(evaluateExpression, 0, 0).values[k] && arg(VarDefinition, k, 2) == definition.Variables()[k].Global())
 //
 //@ func (*transpiler).evaluateVarAssignmentCallAssignment
-//@   loop 1 invariant[C02] position-k-to-variable-k: calls(VarDefinition) == rangeindex + 1 && calls(evaluateExpression) == 1 && forall(k, 0, rangeindex + 1, arg(VarDefinition, k, 0) == assignment.Variables()[k].Name() && arg(VarDefinition, k, 1) == res(evaluateExpression, 0, 0).values[k] && arg(VarDefinition, k, 2) == assignment.Variables()[k].Global())
+//@   loop @"range variables" invariant[C02] position-k-to-variable-k: calls(VarDefinition) == rangeindex + 1 && calls(evaluateExpression) == 1 && forall(k, 0, rangeindex + 1, arg(VarDefinition, k, 0) == assignment.Variables()[k].Name() && arg(VarDefinition, k, 1) == res(evaluateExpression, 0, 0).values[k] && arg(VarDefinition, k, 2) == assignment.Variables()[k].Global())
 //@   ensures[C02,C04] call-once-then-position-k-to-variable-k: result == nil ==> calls(evaluateExpression) == 1 && arg(evaluateExpression, 0, 1) == asExprCall(assignment.Call()) && arg(evaluateExpression, 0, 2) && len(res(evaluateExpression, 0, 0).values) == len(assignment.Variables()) && calls(VarDefinition) == len(assignment.Variables()) && forall(k, 0, len(assignment.Variables()), arg(VarDefinition, k, 0) == assignment.Variables()[k].Name() && arg(VarDefinition, k, 1) == res(evaluateExpression, 0, 0).values[k] && arg(VarDefinition, k, 2) == assignment.Variables()[k].Global())
 //
 //@ func (*transpiler).evaluateBlock
-//@   loop 1 invariant[C04,C16] statement-k-once: calls(evaluate) == rangeindex + 1 && calls(Nop) == 0 && forall(k, 0, rangeindex + 1, arg(evaluate, k, 1) == block.Body()[k])
+//@   loop @"range body" invariant[C04,C16] statement-k-once: calls(evaluate) == rangeindex + 1 && calls(Nop) == 0 && forall(k, 0, rangeindex + 1, arg(evaluate, k, 1) == block.Body()[k])
 //@   ensures[C16] empty-body-gets-a-nop: result == nil && len(block.Body()) == 0 ==> calls(Nop) == 1 && calls(evaluate) == 0
 //@   ensures[C04,C16] every-statement-once-in-order: result == nil && len(block.Body()) > 0 ==> calls(Nop) == 0 && calls(evaluate) == len(block.Body()) && forall(k, 0, len(block.Body()), arg(evaluate, k, 1) == block.Body()[k])
 //
 //@ func (*transpiler).evaluateFunctionDefinition
-//@   loop 1 invariant[C02] parameter-names-in-order: len(params) == rangeindex + 1 && calls(FuncStart) == 0 && calls(evaluateBlock) == 0 && calls(FuncEnd) == 0 && forall(k, 0, rangeindex + 1, params[k] == functionDefinition.Params()[k].Name())
+//@   loop @"range functionDefinition.Params()" invariant[C02] parameter-names-in-order: len(params) == rangeindex + 1 && calls(FuncStart) == 0 && calls(evaluateBlock) == 0 && calls(FuncEnd) == 0 && forall(k, 0, rangeindex + 1, params[k] == functionDefinition.Params()[k].Name())
 //@   ensures[C02,C16] start-body-end: result == nil ==> calls(FuncStart) == 1 && calls(evaluateBlock) == 1 && calls(FuncEnd) == 1 && seq(FuncStart, 0) < seq(evaluateBlock, 0) && seq(evaluateBlock, 0) < seq(FuncEnd, 0)
 //@   ensures[C02] name-and-parameters-in-order: result == nil ==> arg(FuncStart, 0, 0) == functionDefinition.Name() && len(arg(FuncStart, 0, 1)) == len(functionDefinition.Params()) && forall(k, 0, len(functionDefinition.Params()), arg(FuncStart, 0, 1)[k] == functionDefinition.Params()[k].Name()) && arg(evaluateBlock, 0, 1) == asBlockFunction(functionDefinition)
 //
@@ -191,25 +191,25 @@ func specDefaultKnown(t parser.ValueType) bool {
 //@   ensures[C01,C04] init-and-increment: result == nil && forStatement.Init() != nil && forStatement.Increment() != nil ==> calls(evaluate) == 2 && arg(evaluate, 0, 1) == forStatement.Init() && seq(evaluate, 0) < seq(ForStart, 0)
 //
 //@ func (*transpiler).evaluateIf
-//@   loop 1 invariant[C01,C04] conditions-first: calls(evaluateExpression) == rangeindex + 2 && calls(IfStart) == 0 && calls(evaluateBlock) == 0 && len(elifConditions) == rangeindex + 1 && arg(evaluateExpression, 0, 1) == ifStatement.IfBranch().Condition() && arg(evaluateExpression, 0, 2) && forall(k, 0, rangeindex + 1, arg(evaluateExpression, k + 1, 1) == ifStatement.ElseIfBranches()[k].Condition() && arg(evaluateExpression, k + 1, 2) && elifConditions[k] == res(evaluateExpression, k + 1, 0).firstValue())
-//@   loop 2 invariant[C01,C04,C16] branches-in-order: calls(evaluateExpression) == len(ifStatement.ElseIfBranches()) + 1 && calls(IfStart) == 1 && calls(ElseIfStart) == rangeindex + 1 && calls(ElseIfEnd) == rangeindex + 1 && calls(evaluateBlock) == rangeindex + 2 && calls(ElseStart) == 0 && calls(IfEnd) == 0 && len(elifConditions) == len(ifStatement.ElseIfBranches())
-//@   loop 2 invariant[C01,C04] condition-k-opens-branch-k: forall(k, 0, rangeindex + 1, arg(ElseIfStart, k, 0) == res(evaluateExpression, k + 1, 0).firstValue() && arg(evaluateBlock, k + 1, 1) == asBlockBranch(ifStatement.ElseIfBranches()[k])) && forall(k, 0, len(ifStatement.ElseIfBranches()), elifConditions[k] == res(evaluateExpression, k + 1, 0).firstValue() && arg(evaluateExpression, k + 1, 1) == ifStatement.ElseIfBranches()[k].Condition() && arg(evaluateExpression, k + 1, 2))
-//@   loop 2 invariant[C01,C04] head-kept: arg(evaluateExpression, 0, 1) == ifStatement.IfBranch().Condition() && arg(evaluateExpression, 0, 2) && arg(IfStart, 0, 0) == res(evaluateExpression, 0, 0).firstValue() && arg(evaluateBlock, 0, 1) == asBlockBranch(ifStatement.IfBranch())
-//@   loop 2 invariant[C04] all-conditions-before-first-branch: forall(k, 0, calls(evaluateExpression), seq(evaluateExpression, k) < seq(IfStart, 0))
+//@   loop @"range ifStatement.ElseIfBranches()#1" invariant[C01,C04] conditions-first: calls(evaluateExpression) == rangeindex + 2 && calls(IfStart) == 0 && calls(evaluateBlock) == 0 && len(elifConditions) == rangeindex + 1 && arg(evaluateExpression, 0, 1) == ifStatement.IfBranch().Condition() && arg(evaluateExpression, 0, 2) && forall(k, 0, rangeindex + 1, arg(evaluateExpression, k + 1, 1) == ifStatement.ElseIfBranches()[k].Condition() && arg(evaluateExpression, k + 1, 2) && elifConditions[k] == res(evaluateExpression, k + 1, 0).firstValue())
+//@   loop @"range ifStatement.ElseIfBranches()#2" invariant[C01,C04,C16] branches-in-order: calls(evaluateExpression) == len(ifStatement.ElseIfBranches()) + 1 && calls(IfStart) == 1 && calls(ElseIfStart) == rangeindex + 1 && calls(ElseIfEnd) == rangeindex + 1 && calls(evaluateBlock) == rangeindex + 2 && calls(ElseStart) == 0 && calls(IfEnd) == 0 && len(elifConditions) == len(ifStatement.ElseIfBranches())
+//@   loop @"range ifStatement.ElseIfBranches()#2" invariant[C01,C04] condition-k-opens-branch-k: forall(k, 0, rangeindex + 1, arg(ElseIfStart, k, 0) == res(evaluateExpression, k + 1, 0).firstValue() && arg(evaluateBlock, k + 1, 1) == asBlockBranch(ifStatement.ElseIfBranches()[k])) && forall(k, 0, len(ifStatement.ElseIfBranches()), elifConditions[k] == res(evaluateExpression, k + 1, 0).firstValue() && arg(evaluateExpression, k + 1, 1) == ifStatement.ElseIfBranches()[k].Condition() && arg(evaluateExpression, k + 1, 2))
+//@   loop @"range ifStatement.ElseIfBranches()#2" invariant[C01,C04] head-kept: arg(evaluateExpression, 0, 1) == ifStatement.IfBranch().Condition() && arg(evaluateExpression, 0, 2) && arg(IfStart, 0, 0) == res(evaluateExpression, 0, 0).firstValue() && arg(evaluateBlock, 0, 1) == asBlockBranch(ifStatement.IfBranch())
+//@   loop @"range ifStatement.ElseIfBranches()#2" invariant[C04] all-conditions-before-first-branch: forall(k, 0, calls(evaluateExpression), seq(evaluateExpression, k) < seq(IfStart, 0))
 //@   ensures[C04] every-condition-once-before-any-branch: result == nil ==> calls(evaluateExpression) == len(ifStatement.ElseIfBranches()) + 1 && arg(evaluateExpression, 0, 1) == ifStatement.IfBranch().Condition() && arg(evaluateExpression, 0, 2) && forall(k, 0, len(ifStatement.ElseIfBranches()), arg(evaluateExpression, k + 1, 1) == ifStatement.ElseIfBranches()[k].Condition()) && calls(IfStart) == 1 && forall(k, 0, calls(evaluateExpression), seq(evaluateExpression, k) < seq(IfStart, 0))
 //@   ensures[C01,C16] chain-shape: result == nil ==> calls(ElseIfStart) == len(ifStatement.ElseIfBranches()) && calls(ElseIfEnd) == len(ifStatement.ElseIfBranches()) && calls(IfEnd) == 1 && (ifStatement.HasElse() ==> calls(ElseStart) == 1 && calls(ElseEnd) == 1 && calls(evaluateBlock) == len(ifStatement.ElseIfBranches()) + 2) && (!ifStatement.HasElse() ==> calls(ElseStart) == 0 && calls(ElseEnd) == 0 && calls(evaluateBlock) == len(ifStatement.ElseIfBranches()) + 1)
 //@   ensures[C01,C04] condition-k-guards-branch-k: result == nil ==> arg(IfStart, 0, 0) == res(evaluateExpression, 0, 0).firstValue() && arg(evaluateBlock, 0, 1) == asBlockBranch(ifStatement.IfBranch()) && forall(k, 0, len(ifStatement.ElseIfBranches()), arg(ElseIfStart, k, 0) == res(evaluateExpression, k + 1, 0).firstValue() && arg(evaluateBlock, k + 1, 1) == asBlockBranch(ifStatement.ElseIfBranches()[k]))
 //
 //@ func (*transpiler).evaluateAppCall
-//@   loop 1 invariant[C18] no-converter-call-yet: calls(AppCall) == 0 && forall(k, 0, calls(evaluateExpression), arg(evaluateExpression, k, 2))
-//@   loop 2 invariant[C18] no-converter-call-yet: calls(AppCall) == 0 && forall(k, 0, calls(evaluateExpression), arg(evaluateExpression, k, 2))
-//@   loop 2 invariant[C18] one-word-per-argument: len(args) == rangeindex + 1
-//@   loop 2 exit[C18] as-many-words-as-arguments: len(args) == len(nextCall.Args())
+//@   loop @"for nextCall != nil" invariant[C18] no-converter-call-yet: calls(AppCall) == 0 && forall(k, 0, calls(evaluateExpression), arg(evaluateExpression, k, 2))
+//@   loop @"range nextCall.Args()" invariant[C18] no-converter-call-yet: calls(AppCall) == 0 && forall(k, 0, calls(evaluateExpression), arg(evaluateExpression, k, 2))
+//@   loop @"range nextCall.Args()" invariant[C18] one-word-per-argument: len(args) == rangeindex + 1
+//@   loop @"range nextCall.Args()" exit[C18] as-many-words-as-arguments: len(args) == len(nextCall.Args())
 //@   ensures[C04,C18] every-argument-value-is-used: forall(k, 0, calls(evaluateExpression), arg(evaluateExpression, k, 2))
 //@   ensures[C18] one-converter-call: err == nil ==> calls(AppCall) == 1 && arg(AppCall, 0, 1) == valueUsed && len(result0.values) == len(res(AppCall, 0, 0))
 //
 //@ func (*transpiler).evaluateProgram
-//@   loop 1 invariant[C04,C16] statement-k-once: calls(evaluate) == rangeindex + 1 && calls(ProgramStart) == 1 && calls(ProgramEnd) == 0 && forall(k, 0, rangeindex + 1, arg(evaluate, k, 1) == program.Body()[k])
+//@   loop @"range program.Body()" invariant[C04,C16] statement-k-once: calls(evaluate) == rangeindex + 1 && calls(ProgramStart) == 1 && calls(ProgramEnd) == 0 && forall(k, 0, rangeindex + 1, arg(evaluate, k, 1) == program.Body()[k])
 //@   ensures[C04,C16] start-statements-end: result == nil ==> calls(ProgramStart) == 1 && calls(ProgramEnd) == 1 && calls(evaluate) == len(program.Body()) && forall(k, 0, len(program.Body()), arg(evaluate, k, 1) == program.Body()[k])
 
 func asOperationBinary(o parser.BinaryOperation) parser.Operation   { return o }
